@@ -268,10 +268,75 @@ impl Property for C16 {
     fn run(&self, ctl: &mut Ctl) {
         let tier = ctl.tier;
         let ms = cases(tier);
+        let listed = ListedInputs::load(tier);
         for (i, model) in ms.iter().enumerate() {
             let desc = || model.describe();
-            ctl.case(i as u64, &desc, &mut |cx| run_one(model, cx));
+            ctl.case(i as u64, &desc, &mut |cx| {
+                // The known findings of this property (32-bit arithmetic near the limits) are
+                // identified by family (violation kind x constraint kind x class) AND by the
+                // inputs that fail: a violation on an input that is not listed for its family is
+                // reported under a signature that no known finding matches.
+                let found = cx.capture(|cx| run_one(model, cx));
+                let suffix = std::mem::take(&mut cx.sig_suffix);
+                for (sig, msg) in found {
+                    let full = format!("{sig}:{suffix}");
+                    record_input(tier, &full, cx.idx);
+                    if listed.contains(&full, cx.idx) || suffix.ends_with("interior") {
+                        cx.sig_suffix = suffix.clone();
+                    } else {
+                        cx.sig_suffix = format!("{}!input-not-listed", suffix.replace(':', "@"));
+                    }
+                    cx.violation(sig, msg);
+                }
+                cx.sig_suffix.clear();
+            });
         }
+    }
+}
+
+/// The failing inputs listed for the known findings: per tier and full signature, ranges of case
+/// indices (file /verif/known_c16_inputs.json, written by tools/gen_c16_families.py from recording
+/// runs; never at check time).
+struct ListedInputs {
+    ranges: std::collections::HashMap<String, Vec<(u64, u64)>>,
+}
+
+impl ListedInputs {
+    fn load(tier: Tier) -> Self {
+        let mut ranges = std::collections::HashMap::new();
+        if let Ok(text) = std::fs::read_to_string("/verif/known_c16_inputs.json") {
+            if let Ok(v) = serde_json::from_str::<Value>(&text) {
+                let key = if tier.quick() { "quick" } else { "thorough" };
+                if let Some(m) = v[key].as_object() {
+                    for (sig, rs) in m {
+                        let list: Vec<(u64, u64)> = rs
+                            .as_array()
+                            .map(|a| a.iter().filter_map(|r| Some((r[0].as_u64()?, r[1].as_u64()?))).collect())
+                            .unwrap_or_default();
+                        let _ = ranges.insert(sig.clone(), list);
+                    }
+                }
+            }
+        }
+        ListedInputs { ranges }
+    }
+    fn contains(&self, sig: &str, idx: u64) -> bool {
+        self.ranges.get(sig).is_some_and(|rs| {
+            // ranges are sorted and disjoint
+            let k = rs.partition_point(|r| r.1 < idx);
+            k < rs.len() && rs[k].0 <= idx
+        })
+    }
+}
+
+/// Recording mode (PV_C16_RECORD=<directory>): every violation is appended as
+/// `tier <tab> signature <tab> index` to a file per worker process.
+fn record_input(tier: Tier, sig: &str, idx: u64) {
+    use std::io::Write;
+    let Ok(dir) = std::env::var("PV_C16_RECORD") else { return };
+    let path = format!("{dir}/{}.txt", std::process::id());
+    if let Ok(mut f) = std::fs::OpenOptions::new().create(true).append(true).open(path) {
+        let _ = writeln!(f, "{}\t{sig}\t{idx}", if tier.quick() { "quick" } else { "thorough" });
     }
 }
 
